@@ -62,6 +62,18 @@ def run(ck: Check):
         tc = (b"", parts, [True] * len(parts), b"")
         for cfg in ({}, {"repeat": "always"}):
             ex.dfs("minimize-balanced", cfg, tc, stream="balanced-mixed", max_runs=200 if quick else 2000)
+    # brackets in every lexical position - behind a backslash, inside string literals, regular expressions, comments,
+    # doubled: the strategies count BYTES, an atom's balance is what the property says it is whatever surrounds the byte
+    CTX = [b"r = /\\(/\n", b"o\n", b")\n", b'"\\]"\n', b"[\n", b"// {\n", b"}\n", b"'('\n", b"\\\\(\n", b"\\{\\}\\{\n"]
+    for tc in small_layouts(3 if quick else 4, alphabet=CTX[: (7 if quick else 10)], with_nonred=False):
+        if len(tc[1]) >= 2 and any(b"\\" in p or b"/" in p or b"'" in p for p in tc[1]):
+            ex.dfs("minimize-balanced", {}, tc, stream="balanced-lexical-context", max_runs=25 if quick else 250)
+    for parts in ([b"r = /\\(/\n", b"o\n", b")\n"], [b"s = \"\\[\";\n", b"o\n", b"x\n", b"]\n"], [b"// {\n", b"o\n", b"}\n", b"\\}\n"]):
+        tc = (b"", parts, [True] * len(parts), b"")
+        for cfg in ({}, {"repeat": "always"}, {"move": True}):
+            ex.dfs("minimize-balanced", cfg, tc, stream="balanced-lexical-context", max_runs=200 if quick else 2000)
+    from universe import reuse_universe
+    reuse_universe(ex, ck, strategies=("minimize-around", "minimize-balanced"))
     ex.diff()
     r = rng("c13")
 
